@@ -219,6 +219,9 @@ func runC06(r *Run) {
 	}, "State.Commit and package app (genesis)")
 	r.Floor("C06.bypass", 10)
 
+	// ---- C06.memory: in-memory state of one-per-node objects mutated while executing a transaction
+	checkTxMemory(r)
+
 	// ---- C06.overlay: State.Set/Delete write the session overlay when one is open, never the tree
 	for _, name := range []string{fnStateSet, fnStateDel} {
 		fn := p.MustFn(name)
@@ -740,4 +743,98 @@ func unwrapIface(v ssa.Value) ssa.Value {
 			return v
 		}
 	}
+}
+
+
+// evmTxFields: fields of the EVM adapter that hold per-transaction state; they are cleared by Finalise's deferred reset
+// (rule C06.memory.evm-epilogue checks that reset and that Apply always reaches Finalise).
+func evmPerTxField(key string) string {
+	for _, pre := range []string{"vm.CommitStateDB.", "vm.stateObject.", "vm.journal.", "vm.accessList."} {
+		if strings.HasPrefix(key, pre) {
+			return "EVM adapter per-transaction state: reset by CommitStateDB.Finalise's deferred epilogue, which EVMTransaction.Apply reaches on every non-simulation path (C06.memory.evm-epilogue)"
+		}
+	}
+	return ""
+}
+
+func checkTxMemory(r *Run) {
+	p := r.P
+	checkSharedFrom(r, "C06.memory", "DeliverTx", p.Roots()["deliver"], "in-memory field written while executing a transaction, read by later consensus code",
+		"DiscardTxSession does not undo it: a failed transaction leaves the node computing with the new value", evmPerTxField)
+
+	// EVM epilogue (1): Apply reaches Finalise on every path after ApplyMessage unless the message is a simulation
+	ap := p.MustFn("(*vm.EVMTransaction).Apply")
+	var am, fin *ssa.Call
+	allInstrs(ap, func(ins ssa.Instruction) {
+		if c, ok := ins.(*ssa.Call); ok {
+			switch calleeName(c) {
+			case "vm.ApplyMessage":
+				am = c
+			case "(*vm.CommitStateDB).Finalise":
+				fin = c
+			}
+		}
+	})
+	if am == nil || fin == nil {
+		r.Viol("C06.memory.evm-epilogue", fname(ap), "Finalise after ApplyMessage", "ApplyMessage / Finalise call not found in Apply", p.pos(ap.Pos()), nil)
+	} else {
+		fake := condEdges(ap, func(cond ssa.Value, _ *ssa.If) int {
+			return boolCond(cond, func(v ssa.Value) bool {
+				c, ok := v.(*ssa.Call)
+				return ok && strings.HasSuffix(calleeName(c), ".IsFake")
+			})
+		})
+		reach := reachFromInstr(am, fake, func(ins ssa.Instruction) bool { return ins == ssa.Instruction(fin) })
+		leak := false
+		for ins := range reach {
+			if _, isRet := ins.(*ssa.Return); isRet {
+				leak = true
+			}
+		}
+		r.Check(!leak, "C06.memory.evm-epilogue", fname(ap), "Finalise after ApplyMessage on every non-simulation path",
+			"every return after ApplyMessage passes CommitStateDB.Finalise unless IsFake()",
+			"Apply can return after ApplyMessage without Finalise: the rejected transaction's cached state objects and journal (e.g. the gas purchase) stay in memory and are persisted by the next EVM transaction", p.ipos(am))
+	}
+	// EVM epilogue (2): Finalise registers, before anything can return, a deferred reset of the object cache and the journal
+	fz := p.MustFn("(*vm.CommitStateDB).Finalise")
+	var df *ssa.Defer
+	allInstrs(fz, func(ins ssa.Instruction) {
+		if d, ok := ins.(*ssa.Defer); ok && df == nil {
+			df = d
+		}
+	})
+	okReset := false
+	missing := ""
+	if df != nil {
+		cl := closureOf(df.Call.Value)
+		if cl != nil {
+			reset := map[string]bool{}
+			allInstrs(cl, func(ins ssa.Instruction) {
+				if st, ok := ins.(*ssa.Store); ok {
+					if fa, ok := st.Addr.(*ssa.FieldAddr); ok {
+						reset[fieldName(fa.X.Type(), fa.Field)] = true
+					}
+				}
+				if c, ok := ins.(*ssa.Call); ok && calleeName(c) == "(*vm.CommitStateDB).clearJournalAndRefund" {
+					reset["journal"] = true
+				}
+			})
+			okReset = true
+			for _, f := range []string{"stateObjects", "addressToObjectIndex", "stateObjectsDirty", "journal"} {
+				if !reset[f] {
+					okReset = false
+					missing += f + " "
+				}
+			}
+			for _, ret := range returnsOf(fz) {
+				if !dominatesInstr(df, ret) {
+					okReset = false
+					missing += "(defer does not dominate every return) "
+				}
+			}
+		}
+	}
+	r.Check(okReset, "C06.memory.evm-epilogue", fname(fz), "deferred reset of object cache and journal",
+		"Finalise always ends by dropping the cached state objects, the dirty set and the journal",
+		"Finalise's epilogue no longer resets: "+missing+"- state cached by one transaction (even a failed one) is visible to the next", p.pos(fz.Pos()))
 }
